@@ -36,8 +36,9 @@ type LoopSpec struct {
 
 // AtSpec: an assertion attached to the instructions whose source text contains Text.
 type AtSpec struct {
-	Text string
-	C    Clause
+	Text     string
+	C        Clause
+	CallOnly bool // at call "text": only call instructions match; arg(i) denotes their arguments
 }
 
 type Unit struct {
@@ -50,6 +51,7 @@ type Unit struct {
 	Modifies []string // raw items; nil = inferred; "nothing"
 	HasMod   bool
 	ModInferred bool // modifies = the inferred write set of the body, plus the listed items
+	Preserves []string // type names: no field of any pre-existing object of these struct types changes
 	Ats      []AtSpec
 	MemoClass string    // memoize CLASS: value class of the build-cache keys made in this function (C13)
 	Pins     []EnumSpec // pins OBJ [except f,...]: every field of OBJ's struct type is assigned on every path
@@ -114,7 +116,7 @@ func NewContracts() *Contracts {
 	return &Contracts{Units: map[string]*Unit{}, Specs: map[string]*SpecFunc{}, Ghosts: map[string]*GhostVar{}, GhostFields: map[string]map[string]*GhostField{}}
 }
 
-var clauseKeywords = map[string]bool{"step": true, "exits": true, "at": true, "memoize": true, "pins": true, "visits": true, "requires": true, "ensures": true, "modifies": true, "invariant": true,
+var clauseKeywords = map[string]bool{"preserves": true, "step": true, "exits": true, "at": true, "memoize": true, "pins": true, "visits": true, "requires": true, "ensures": true, "modifies": true, "invariant": true,
 	"decreases": true, "loop": true, "func": true, "spec": true, "define": true, "axiom": true, "ghost": true,
 	"opts": true, "pure": true, "end": true, "trusted": true}
 
@@ -250,6 +252,15 @@ func (c *Contracts) ParseFile(path, pkgPath string) error {
 			} else {
 				cur.Ensures = append(cur.Ensures, cl)
 			}
+		case "preserves":
+			if cur == nil {
+				return fmt.Errorf("%s:%d: preserves outside func", path, r.line)
+			}
+			for _, t := range splitTop(r.text) {
+				if t = strings.TrimSpace(t); t != "" {
+					cur.Preserves = append(cur.Preserves, t)
+				}
+			}
 		case "memoize":
 			if cur == nil {
 				return fmt.Errorf("%s:%d: memoize outside func", path, r.line)
@@ -336,6 +347,11 @@ func (c *Contracts) ParseFile(path, pkgPath string) error {
 				return fmt.Errorf("%s:%d: at outside func", path, r.line)
 			}
 			t := strings.TrimSpace(r.text)
+			callOnly := false
+			if strings.HasPrefix(t, "call ") {
+				callOnly = true
+				t = strings.TrimSpace(t[5:])
+			}
 			if !strings.HasPrefix(t, "\"") {
 				return fmt.Errorf("%s:%d: at \"text\" requires EXPR", path, r.line)
 			}
@@ -354,7 +370,7 @@ func (c *Contracts) ParseFile(path, pkgPath string) error {
 			if err != nil {
 				return err
 			}
-			cur.Ats = append(cur.Ats, AtSpec{Text: txt, C: cl})
+			cur.Ats = append(cur.Ats, AtSpec{Text: txt, C: cl, CallOnly: callOnly})
 			curLoop = nil
 		case "invariant":
 			if curLoop == nil {
